@@ -351,6 +351,87 @@ func TestVerifC03(t *testing.T) {
 		}
 	})
 
+	// sequential HISTORIES: one goroutine verifies a long sequence of signatures under a handful of
+	// related keys (P, -P, [2]P, Q, -Q: same x with the other y, small multiples), valid and invalid,
+	// in an order that revisits keys; every answer is compared with the model (state kept from one
+	// call must not influence the next)
+	for h := 0; h < hk.N(6, 40); h++ {
+		lr := hk.NewRNG(hk.Seed(), caseID("c03hist", h))
+		base := kps[3+lr.Intn(len(kps)-3)]
+		other := kps[3+lr.Intn(len(kps)-3)]
+		keys := []ref.Pt{base.P, base.P.Neg(), base.P.Dbl(), other.P, other.P.Neg(), ref.G(), ref.G().Neg()}
+		type sig struct{ e, r, s []byte }
+		sigs := make([][]sig, len(keys))
+		for ki, K := range keys {
+			for j := 0; j < 3; j++ {
+				sv, tv := randScalar(lr), randScalar(lr)
+				if j == 2 {
+					tv = bi(int64(1 + lr.Intn(8000))) // tiny t: (r+s) mod n small
+				}
+				e, rr, inf := tupleFor(K, sv, tv)
+				if inf || rr.Sign() == 0 {
+					continue
+				}
+				sigs[ki] = append(sigs[ki], sig{ref.B32(e), ref.B32(rr), ref.B32(sv)})
+			}
+		}
+		var hist []string
+		prev := -1
+		for step := 0; step < hk.N(120, 400); step++ {
+			ki := lr.Intn(len(keys))
+			if prev >= 0 && lr.Intn(3) == 0 {
+				ki = prev ^ 1 // the key with the same x and the other y (pairs are adjacent in the list)
+				if ki >= len(keys) {
+					ki = prev
+				}
+			}
+			si := lr.Intn(len(keys)) // signature made for key si, presented under key ki
+			if lr.Intn(2) == 0 {
+				si = ki
+			}
+			if len(sigs[si]) == 0 {
+				continue
+			}
+			sg := sigs[si][lr.Intn(len(sigs[si]))]
+			px, py := ref.B32(keys[ki].X), ref.B32(keys[ki].Y)
+			want := ref.SM2Verify(px, py, sg.e, sg.r, sg.s)
+			var ok bool
+			p, msg, _, _ := hk.Try(func() { ok, _ = VerifyHashed(px, py, sg.e, sg.r, sg.s) })
+			hist = append(hist, fmt.Sprintf("key%d/sig%d=%v", ki, si, ok))
+			if len(hist) > 12 {
+				hist = hist[len(hist)-12:]
+			}
+			if p {
+				rep.Violation("history:verify-panics", hk.D{"panic": msg, "recent": hist})
+			} else if ok != want {
+				cls := "history:invalid-signature-accepted-after-other-calls"
+				if want {
+					cls = "history:valid-signature-rejected-after-other-calls"
+				}
+				rep.Violation(cls, hk.D{"recent": hist, "px": hk.Hex(px), "py": hk.Hex(py), "e": hk.Hex(sg.e), "r": hk.Hex(sg.r), "s": hk.Hex(sg.s), "want": want})
+			}
+			prev = ki
+		}
+		rep.Eval("history:sequential-verifications")
+	}
+	// canaries: after all the hostile verifications above the rest of the API must still be exact
+	for i := 0; i < hk.N(80, 400); i++ {
+		d := randScalar(rng)
+		if i < 64 {
+			d = new(big.Int).Lsh(bi(int64(1+i%63)), uint(4+6*(i%40))) // single comb digits at varied positions
+			d = ref.ModN(d)
+			if d.Sign() == 0 {
+				continue
+			}
+		}
+		x, y, err := DerivePublic(ref.B32(d))
+		P := ref.BaseMulFast(d)
+		if err != nil || hk.Hex(x) != hk.Hex(ref.B32(P.X)) || hk.Hex(y) != hk.Hex(ref.B32(P.Y)) {
+			rep.Violation("canary:DerivePublic-wrong-after-verification-workload", hk.D{"d": hk.Hex(ref.B32(d)), "x": hexOrNil(x), "y": hexOrNil(y)})
+		}
+		rep.Eval("canary:derive-after-workload")
+	}
+
 	// wrappers on derived inputs: Verify / VerifyZa must give the model's answer for e = SM3(ZA||M)
 	for i := 0; i < hk.N(40, 600); i++ {
 		k := kps[rng.Intn(len(kps))]
